@@ -98,7 +98,7 @@ func canary(h http.Handler) {
 	vsym.Assert(Do(h, BodyReq("PUT", "/bkt/canary", nil, b)).Code() == 200, "C09/canary-put")
 	g := Do(h, Req{Method: "GET", Path: "/bkt/canary"})
 	vsym.Assert(g.Code() == 200 && string(g.Body) == "canary", "C09/canary-get")
-	if vsym.Param("fullcanary", 0) == 1 {
+	if vsym.Param("fullcanary", 0) == 1 && backendKind() != kindFsSingle { // (the single-bucket backend cannot create buckets)
 		vsym.Assert(Do(h, Req{Method: "PUT", Path: "/fresh-bucket"}).Code() == 200, "C09/canary-new-bucket")
 		vsym.Assert(Do(h, BodyReq("PUT", "/fresh-bucket/x", nil, b)).Code() == 200, "C09/canary-new-put")
 		g2 := Do(h, Req{Method: "GET", Path: "/fresh-bucket/x"})
@@ -247,7 +247,7 @@ func VH_C09() {
 
 	extra := 0
 	if !varyQuery {
-		extra = 1 + vsym.Choice("extra", 9)
+		extra = 1 + vsym.Choice("extra", 10)
 	}
 	switch extra {
 	case 0:
@@ -281,6 +281,8 @@ func VH_C09() {
 		hdr.Set("Content-Length", itoa(len(stream)))
 		hdr.Set("X-Amz-Content-Sha256", "STREAMING-AWS4-HMAC-SHA256-PAYLOAD")
 		hdr.Set("X-Amz-Decoded-Content-Length", []string{"2", "0", "-1", "3", "x", "9223372036854775807"}[vsym.Choice("dcl", 6)])
+	case 10: // Minio's forced bucket delete (and junk values of its header)
+		hdr.Set("x-minio-force-delete", []string{"true", "false", "TRUE", ""}[vsym.Choice("force", 4)])
 	case 7:
 		hdr.Set("If-None-Match", asciiStr("inm", 2))
 		hdr.Set("x-amz-date", "20060102T150405Z")
@@ -311,6 +313,16 @@ func VH_C09() {
 	}
 	r := Do(h, rq)
 	checkWellFormed("C09", r, method)
+	if method == "DELETE" && r.Code() == 204 && Do(h, Req{Method: "HEAD", Path: "/bkt"}).Code() == 404 {
+		// the request legitimately removed the bucket (a forced delete): it can be created again
+		vsym.Assert(kind != kindFsSingle, "C09/single-bucket-deleted")
+		vsym.Assert(Do(h, Req{Method: "PUT", Path: "/bkt"}).Code() == 200, "C09/recreate-after-delete")
+	}
+	if method == "DELETE" && r.Code() >= 400 {
+		// a delete that was refused has not deleted anything
+		g := Do(h, Req{Method: "GET", Path: "/bkt/p/q"})
+		vsym.Assert(g.Code() == 200 && string(g.Body) == "pq", "C09/refused-delete-removed-objects")
+	}
 	canary(h)
 	vsym.Reach("C09/done")
 }
